@@ -46,11 +46,18 @@ func (w *Worker) fBin(op token.Token, a, b *Term, f32 bool) *Term {
 			return tt.rBin(OpRMul, a, b, f32)
 		case token.QUO:
 			if !b.IsConst() {
-				// x/0 is outside the finite-real model: the zero-divisor side of
-				// the fork is pruned and counted (stated in the evidence).
+				// x/0 is Inf/NaN natively, which the finite-real model cannot
+				// represent. Default: continue with an unconstrained ("poison")
+				// value, so anything that depends on it cannot be proved and is
+				// decided by native replay. A harness may instead ask for such
+				// paths to be pruned (verifDivZeroPrune), which is then recorded.
 				if w.branch(tt.Eq(b, tt.Real(0))) {
-					w.stats.Stubs["R+ model: path with a zero float divisor pruned"]++
-					panic(pathEnd{"zero divisor outside the finite-real model"})
+					if w.cfg.DivZeroPrune {
+						w.stats.Stubs["R+ model: path with a zero float divisor pruned (harness opted in)"]++
+						panic(pathEnd{"zero divisor outside the finite-real model"})
+					}
+					w.stats.Stubs["R+ model: float division by zero yields an unconstrained value (decided by native replay)"]++
+					return tt.Fresh("nonfinite", RealSort)
 				}
 			}
 			return tt.rBin(OpRDiv, a, b, f32)
